@@ -43,6 +43,19 @@ def exhaustive_histories(max_len):
       yield pre + list(seq) + [("query", "stats")]
 
 
+def load_corpus():
+  """corpus/C08/*.json: minimised histories of past disagreements / witnesses; run first."""
+  import glob
+  import json
+  import os
+  out = []
+  for f in sorted(glob.glob(os.path.join(common.VERIF, "corpus", "C08", "*.json"))):
+    for e in json.load(open(f)):
+      ops = [tg.parse_op(t) for t in e["ops"]]
+      out.append(ops + [("query", "stats")])
+  return out
+
+
 def random_history(cfg, rng, length):
   """Generates a history against a live real program; returns (ops, real outputs, ranks or None)."""
   real = tg.Real(cfg)
@@ -168,6 +181,9 @@ def correspond(res, rng, tier):
   ex = list(exhaustive_histories(ex_len))
   n_rand = 1400 if tier == "quick" else 20000
   tasks = []
+  corpus = load_corpus()
+  if corpus:
+    tasks.append((0, "cases", corpus))
   chunk = 1500
   for i in range(0, len(ex), chunk):
     tasks.append((0, "cases", ex[i:i + chunk]))
@@ -194,7 +210,7 @@ def correspond(res, rng, tier):
       "contain at least one solver query issued on a warm solver (previous op was a solver query) and whose "
       "HasCombination/IsVisible answers include both True and False." % (ex_len, n_rand))
   res.cov["distribution"] = {
-      "exhaustive_histories": len(ex), "random_histories": n_rand, "histories": total.get("histories", 0),
+      "corpus_histories": len(corpus), "exhaustive_histories": len(ex), "random_histories": n_rand, "histories": total.get("histories", 0),
       "ops": total.get("ops", 0), "queries": total.get("queries", 0), "warm_solver_queries": total.get("warm_queries", 0),
       "cyclic_histories": total.get("cyclic", 0), "conditioned_histories": total.get("conditioned", 0),
       "histories_run_with_measured_address_ranks": total.get("with_address_ranks", 0),
@@ -406,9 +422,10 @@ def main():
                  "and passed to the model as address ranks",
                  "no 64-bit collisions of State::Hash; PathCacheTrie is a pure memo"],
         assumptions=["ids are dense and assigned in creation order; variables stay below MAX_VAR_SIZE-1 = 63 bindings",
-                     "query_fresh is proved for histories whose last effective op is a mutation (no solver alive) and "
-                     "for solver-free queries; with a live solver it is false on cyclic graphs (known findings "
-                     "c08-cyclic-*) and not proved on acyclic graphs (covered by K/S sampling only)"])
+                     "query_fresh is proved whenever the graph at query time is acyclic (any history, live solver) and, on any "
+                     "graph, when no solver is alive or the query is solver-free; with a live solver on a cyclic graph it is "
+                     "false (known findings c08-cyclic-*)",
+                     "the fresh replica of the theorems shares the address ranks of the original program"])
   except common.Timeout as e:
     print("TIMEOUT property=C08 %s" % e)
     return 2
